@@ -14,6 +14,7 @@ CHECKS = {
  "C20": ("kani", "bounded model checking (Kani/CBMC): panic freedom and proposal counts for concrete (steps, inner_steps) edges, convergence rule", "5 C20", K_NOTE),
  "C12": ("mirsym", "symbolic execution of the MIR of Line2/Atom2/LineShape/MolecularShape2::intersects + z3 (nlsat) against exact geometry", "5 C12", M_NOTE),
  "C13": ("mirsym", "symbolic execution of the MIR of LJ2::energy / lj2_ops::mul / LJShape2::energy + z3 against the shifted truncated 12-6 law", "5 C13", M_NOTE),
+ "C03": ("mirsym", "symbolic execution of PotentialState::score MIR with the shape's energy uninterpreted + z3: the sum equals the lattice energy per molecule with every pair once (weights, pair set, normalisation)", "5 C03", M_NOTE),
  "C14": ("mirsym", "symbolic execution of the MIR of Cell2::{to_cartesian*, area, periodic_images} with iterator models + z3: lattice identities for all cells, k <= 3", "5 C14", M_NOTE),
  "C15": ("mirsym", "symbolic execution of the MIR of OccupiedSite::positions / Transform2::periodic + z3 (reals) and QF_FP (bit-precise wrap range)", "5 C15", M_NOTE),
  "C16": ("mirsym", "group axioms and International-Tables comparison over the tables produced by the real parser (finite, exhaustive) + z3 metric-invariance queries over the family's symbolic cells", "5 C16", M_NOTE),
